@@ -36,10 +36,10 @@ def dumpableB (l : Spec.Layout) (d : Spec.DbContent) (o : Spec.Options) : Bool :
         | some pages => o.listOnly || pages.isEmpty || relReadableB d r
         | none => true))
 
-/-- the cluster lies in none of the classes of the open findings C01-TPL, C01-SEG, C01-TBLSPC (A02 is per database and
-options: `dumpableB`), and every database that `o` selects and that has a directory is dumpable -/
+/-- the cluster lies in none of the classes of the open findings C01-TPL, C01-SEG, C01-TBLSPC, C01-MAPPED, C01-MISSINGVAL (A02
+is per database and options: `dumpableB`), and every database that `o` selects and that has a directory is dumpable -/
 def dumpHypB (c : Spec.Cluster) (o : Spec.Options) : Bool :=
-  decide (Spec.TemplatesByName c) && decide c.Plain &&
+  decide (Spec.TemplatesByName c) && decide c.Plain && decide c.IdentityMapped && decide c.NoFastDefaults &&
   c.dbs.live.all fun db =>
     !Spec.selectedDb o db ||
       match c.content.lookup db.oid with
